@@ -26,7 +26,7 @@ func init() { register(c13{}) }
 func (c13) ID() string    { return "C13" }
 func (c13) Level() string { return "fault_enumeration" }
 func (c13) Rule() string {
-	return "for bodies {empty, 1 B, 100 B text, 5 KiB text, 70 KiB incompressible, 200 KiB multi-block} written through the real cache.CreateLevel/Write/Close (chunked like the CLI's 4 KiB bufio writer): (1) control: the finished entry opens and reads back exactly the body; (2) every byte offset x {8 single-bit masks, 0x00, 0xFF, complement} of the finished file (all offsets for files <= 8 KiB and for the 60-byte header of every file, sampled offsets beyond: quick 300, thorough 20000 per file); (3) every truncation length (all for small files, all header lengths + sampled for big ones); (4) appended tails {1 B, 60 B, a whole second entry}; (5) the entry stored under the name of a different root/data digest and opened with the other key, and opened in place with a different rsum or dsum; (6) crash points through hook H1 on the real write path: after create, after the placeholder header, before every body write, after flate close, after the body hash, before the final header, tear:K for every K in 0..60, after the header - each followed by cache.Open; (7) thorough and quick (fewer): the real CLI `gts clear|reverse|complement` SIGKILLed at every H1/H2 point of its own write path, then the identical command run clean over the same cache directory must equal the uncached reference. Oracle: Open err==nil => ReadAll == exactly the written body; every damaged state must fail to open. non-trivial: a fault was actually applied (state differs from the finished entry); distinct: (body, fault kind, parameter)."
+	return "for bodies {empty, 1 B, 100 B text, 5 KiB text, 70 KiB incompressible, 200 KiB multi-block} written through the real cache.CreateLevel/Write/Close (chunked like the CLI's 4 KiB bufio writer): (1) control: the finished entry opens and reads back exactly the body; (2) every byte offset x {8 single-bit masks, 0x00, 0xFF, complement} of the finished file (all offsets for files <= 8 KiB and for the 60-byte header of every file, sampled offsets beyond: quick 300, thorough 20000 per file); (3) every truncation length (all for small files, all header lengths + sampled for big ones); (4) appended tails {1 B, 60 B, a whole second entry}; (5) the entry stored under the name of a different root/data digest and opened with the other key, and opened in place with a different rsum or dsum; (6) crash points through hook H1 on the real write path: after create, after the placeholder header, before every body write, after flate close, after the body hash, before the final header, tear:K for every K in 0..60, after the header - each followed by cache.Open; (7) the real CLI `gts clear|reverse|complement` SIGKILLed at every H1/H2 point of its own write path, and run under strace with ENOSPC/EIO injected into the N-th write(2) on the cache entry for every N; then the identical command run clean over the same cache directory must equal the uncached reference (and a faulted run that exits 0 must have printed the reference output). Oracle: Open err==nil => ReadAll == exactly the written body; every damaged state must fail to open. non-trivial: a fault was actually applied (state differs from the finished entry); distinct: (body, fault kind, parameter)."
 }
 func (c13) Assumptions() []string {
 	return []string{"crash = process death with the operating system surviving (bytes handed to write(2) persist, bytes buffered in the flate writer are lost); no fsync / power-loss model",
@@ -491,6 +491,63 @@ func (m c13) cliCrashes(c *fw.Ctx) {
 			r3 := env.Run(args, input, nil, to)
 			if !bytes.Equal(r3.Stdout, ref.Stdout) || r3.Exit != ref.Exit {
 				c.Violate("cli:run-after-recovery-differs:"+p.point, enc, "same as --no-cache", fmt.Sprintf("exit %d, %d bytes", r3.Exit, len(r3.Stdout)))
+			}
+		}
+		m.cliIOErrors(c, env, args, input, ref.Stdout, ref.Exit)
+	}
+}
+
+// cliIOErrors injects a real I/O error (ENOSPC, EIO) into the N-th write(2) on
+// the cache entry with strace, for every N the run performs; the faulted run
+// itself must either fail or print the reference output, and the identical
+// clean rerun over the same cache directory must equal the reference.
+func (m c13) cliIOErrors(c *fw.Ctx, env *cli.Env, args []string, input, refOut []byte, refExit int) {
+	if _, err := os.Stat("/usr/bin/strace"); err != nil {
+		c.Note("strace not available: I/O error injection skipped")
+		return
+	}
+	to := 90 * time.Second
+	// the entry name of this (command, input): from a clean run.
+	env.ResetCache()
+	env.Run(args, input, nil, to)
+	ents, _ := os.ReadDir(env.CacheDir())
+	if len(ents) != 1 {
+		c.Note(fmt.Sprintf("cannot identify the cache entry of gts %v (%d files)", args, len(ents)))
+		return
+	}
+	entry := filepath.Join(env.CacheDir(), ents[0].Name())
+	maxN := c.Pick(6, 40)
+	for _, errno := range []string{"ENOSPC", "EIO"} {
+		for n := 1; n <= maxN; n++ {
+			if !c.NextShared() {
+				continue
+			}
+			env.ResetCache()
+			os.MkdirAll(env.CacheDir(), 0755)
+			enc := fmt.Sprintf("cli gts %v with %s injected into write #%d on the cache entry, then clean rerun", args, errno, n)
+			c.Begin(enc)
+			tr := filepath.Join(env.Root, "strace.txt")
+			os.Remove(tr)
+			// run gts under strace through the cli driver's environment.
+			sargs := append([]string{"-f", "-o", tr, "-e", "trace=write", "-e", fmt.Sprintf("inject=write:error=%s:when=%d", errno, n), "-P", entry, env.Bin}, args...)
+			senv := &cli.Env{Bin: "/usr/bin/strace", Root: env.Root}
+			fr := senv.Run(sargs, input, nil, to)
+			tb, _ := os.ReadFile(tr)
+			if !bytes.Contains(tb, []byte("(INJECTED)")) {
+				c.Skip("fewer writes on the cache entry than the injection index")
+				c.Count(enc, false)
+				break
+			}
+			c.Count(enc, true)
+			c.Hook("io-error-injected:" + errno)
+			c.Bucket("cli:io-error-then-clean-run")
+			if fr.Exit == 0 && !bytes.Equal(fr.Stdout, refOut) {
+				c.Violate("cli:io-error-run-exits-0-with-wrong-output", enc, fmt.Sprintf("%d bytes or a failure", len(refOut)), fmt.Sprintf("exit 0, %d bytes", len(fr.Stdout)))
+				continue
+			}
+			rr := env.Run(args, input, nil, to)
+			if !bytes.Equal(rr.Stdout, refOut) || rr.Exit != refExit {
+				c.Violate("cli:io-error-poisons-cache:"+errno, enc, fmt.Sprintf("exit %d, %d bytes equal to --no-cache", refExit, len(refOut)), fmt.Sprintf("exit %d, %d bytes", rr.Exit, len(rr.Stdout)))
 			}
 		}
 	}
